@@ -498,6 +498,27 @@ theorem every_session_is_created_with_the_node_cookie :
       [("ConnectionOpened", "self.cookie.clone()", "is_server"),
        ("ConnectionOpenedExternal", "self.cookie.clone()", "is_server")] := by decide
 
+/-! ### a retracted pid is no longer reachable -/
+
+section
+variable {C D : Type} [DecidableEq D] (H : C → Nat → D)
+
+/-- ("advertised to that peer" as a current fact) When a local actor exits, the monitoring session
+sends `Terminate` and drops the pid from its allow-list: right afterwards the pid is not advertised,
+and no cast or call to it is delivered — whatever the registries answer — until it is announced again. -/
+theorem retracted_pid_is_not_reachable (cfg : Cfg C) (st : SState D) (env env' : Env) (pid : Nat) (i : In D)
+    (hlive : st.stopped = false) (hm : st.monitoring = true) :
+    pid ∉ (handle H cfg st env (.pidTerminate pid true)).1.advertised ∧
+    Effect.send (.control (.terminate [pid])) ∈ (handle H cfg st env (.pidTerminate pid true)).2 ∧
+    ∀ k, Effect.deliverLocal pid k ∉ (handle H cfg (handle H cfg st env (.pidTerminate pid true)).1 env' i).2 := by
+  have h1 : pid ∉ (handle H cfg st env (.pidTerminate pid true)).1.advertised := by
+    simp [handle, hlive, hm]
+  refine ⟨h1, by simp [handle, hlive, hm], ?_⟩
+  intro k hk
+  exact h1 (delivery_only_to_advertised H cfg _ env' i pid k hk).1
+
+end
+
 /-! ### the witness: the full statement is FALSE of the code (finding F9) -/
 
 section
@@ -568,6 +589,7 @@ end
 #print axioms C17.authentication_only_by_cookie_or_reflection
 #print axioms C17.no_relay_never_authenticated_partial
 #print axioms C17.empty_quiet
+#print axioms C17.retracted_pid_is_not_reachable
 #print axioms C17.transitive_dials_only_unknown_peers
 #print axioms C17.client_connects_only_open_a_client_session
 #print axioms C17.every_session_is_created_with_the_node_cookie
